@@ -6,6 +6,7 @@ import Sourcer.Wire
     (core (bytes 0|1) (ign k|-1) (fuel n) (rx R…) (rules E…) (entry E) (cases (p c c c …) …))
         → for every case "<gen> <peg>" separated by " ; "
     (flagsof E)                           → as/cps bits the table assigns to E
+    (machine (start k) (fuel n) (bodies (k FPROG) …))  → event trace of the `_run` model
     (prepare (rule name ign E) …)         → the prepared program (model of the translator's front half)
 -/
 open Sourcer Sexp
@@ -78,6 +79,21 @@ def handle (st : St) (line : String) : St × String :=
     match handleCore st xs with
     | some out => (st, out)
     | none => (st, "error bad-core-request")
+  | some (.list (.atom "machine" :: xs)) =>
+    let r := do
+      let k0 ← (← (← field "start" xs).head?).nat?
+      let fuel ← (← (← field "fuel" xs).head?).nat?
+      let bodies ← (← field "bodies" xs).mapM fun b => match b with
+        | .list [k, p] => do pure ((← k.nat?), (← decodeFProg p))
+        | _ => none
+      let body : Nat → Run.Prog Nat Nat := fun k =>
+        match bodies.find? (·.1 == k) with
+        | some (_, p) => p.toProg
+        | none => .ret 0
+      pure (machineTrace body k0 fuel)
+    match r with
+    | some out => (st, out)
+    | none => (st, "error bad-machine-request")
   | some (.list (.atom "prepcore" :: xs)) =>
     match handlePrepCore st xs with
     | some out => (st, out)
